@@ -197,6 +197,19 @@ def d_dtc():
     return B.response([B.coded_const("sid", 0x59, 0), B.value_param("code", d)]), [("code", ("dependent", 16))], None
 
 
+def d_dtc_linked():
+    # a DTC-DOP that inherits trouble codes from a linked DTC-DOP: one is inherited, one is excluded by
+    # NOT-INHERITED-DTC-SNREFS, one is hidden by a local DTC of the same name
+    base = B.dtc_dop("dtcs_base", [B.dtc(0x0A00, "P0A00"), B.dtc(0x0B00, "P0B00"), B.dtc(0x9999, "P1234")])
+    d = B.dtc_dop("dtcs", [B.dtc(0x1234, "P1234"), B.dtc(0x0001, "P0001")], linked=[(base, ["P0B00"])])
+    return B.response([B.coded_const("sid", 0x59, 0), B.value_param("code", d)]), \
+        [("code", ("pickint", [0x1234, 0x0001, 0x0A00, 0x0B00, 0x9999, 0x7777]))], None
+
+
+# values a description admits (where that is a finite set the description spells out)
+ADMITTED = {"dtc-linked": {"code": [0x1234, 0x0001, 0x0A00]}}
+
+
 def d_multiplexer():
     sa = B.structure("sa", [B.value_param("a", B.dop("u8", 8))])
     sb = B.structure("sb", [B.value_param("b", B.dop("u16", 16))])
@@ -464,7 +477,7 @@ DESCRIPTIONS = {
     "static-field-of-strings-last": d_static_field_of_strings_last,
     "dynamic-length-field-last": d_dynamic_length_field_last,
     "lowhigh-const+u8": d_lowhigh_const_then_u8, "end-of-pdu-field-min-max": d_end_of_pdu_field_min_max,
-    "table-key-given+struct": d_table_key_given_and_struct,
+    "table-key-given+struct": d_table_key_given_and_struct, "dtc-linked": d_dtc_linked,
 }
 
 # descriptions in which every bit of the PDU is determined by the decoded values: no reserved bits, no padding behind
@@ -472,7 +485,7 @@ DESCRIPTIONS = {
 # multiplexer re-encodes the lower limit of the case); strings are left out because the abstract codec (A-codec) makes
 # the comparison undecidable for the solvers, linear-int16 because the 16 bit two's complement comparison stays unknown
 DECODE_SKIP = {"dynamic-length-field-of-strings-last"}
-BYTES_DETERMINED = {"sid+u8", "lowhigh-12+4", "lowhigh-const+u8", "end-of-pdu-field-min-max", "default", "phys-const", "linear-limited-u8",
+BYTES_DETERMINED = {"sid+u8", "dtc-linked", "lowhigh-12+4", "lowhigh-const+u8", "end-of-pdu-field-min-max", "default", "phys-const", "linear-limited-u8",
                     "minmax-zero+u8", "minmax-end-of-pdu", "minmax-hexff+const", "struct-param", "end-of-pdu-field",
                     "leading-length-bytes", "leading-length-le16", "leading-length-last", "dynamic-length-field",
                     "dtc", "table-key+struct", "length-key-bytes",
@@ -572,6 +585,8 @@ def _wire(desc, values, pdu):
         if row == "row_a":
             return bytes([0x22, 1, content["a"]])
         return H.And(len(pdu) == 4, pdu[0] == 0x22, pdu[1] == 3, 256 * pdu[2] + pdu[3] == content["a"])
+    if desc == "dtc-linked":
+        return bytes([0x59, v["code"] // 256, v["code"] % 256])
     if desc == "lowhigh-const+u8":
         return bytes([0x22, 0x90, 0xF1, v["v"]])
     if desc == "lowhigh-12+4":
@@ -635,7 +650,7 @@ def _fam(tier, seed):
 
 
 @harness(props=["C01", "C02", "C03", "C04", "C05", "C08"], strength="B", family=_fam,
-         bound="55 concrete request/response descriptions built from the real parameter / DOP / diag-coded-type classes "
+         bound="56 concrete request/response descriptions built from the real parameter / DOP / diag-coded-type classes "
          "(constants, defaults, reserved bits, low-high and non-aligned values, linear compu method, request echoes, "
          "MIN-MAX-LENGTH types with the three terminations, PHYS-CONST, SYSTEM, structures with and without BYTE-SIZE, end-of-PDU, static and dynamic-length fields, LEADING-LENGTH types, DTC DOP, multiplexer, table key/struct, PARAM-LENGTH-INFO types with their length key); per description every value is "
          "symbolic",
@@ -677,6 +692,9 @@ def roundtrip_through_the_real_stack(desc):
     except OdxError:
         H.cover("rejected")
         H.check("C04:rejections-are-odxtools-errors-never-foreign-exceptions", True)
+        for (name, admitted) in ADMITTED.get(desc, {}).items():
+            if name in values and not omitted:
+                H.check("C01,C08:values-the-description-admits-are-accepted", values[name] not in admitted)
         # the converse of "required": with every required parameter given and every given value inside the range of
         # its type, nothing justifies a rejection (only stated for descriptions whose value ranges are plain)
         ok = [_acceptable(kind, values[name]) for (name, kind) in specs if name in values]
@@ -690,6 +708,9 @@ def roundtrip_through_the_real_stack(desc):
         return
     H.cover("encoded")
     H.check("C04:rejections-are-odxtools-errors-never-foreign-exceptions", True)
+    for (name, admitted) in ADMITTED.get(desc, {}).items():
+        if name in values:
+            H.check("C04:values-the-description-does-not-admit-are-rejected", values[name] in admitted)
     H.check("C04:a-value-given-for-a-constant-is-the-constant", const_given_as in ("omitted", "the constant"))
     H.check("C04:values-for-unknown-parameters-are-rejected",
             not any(["bogus" in v for v in values.values() if isinstance(v, dict)]))
@@ -724,7 +745,7 @@ def roundtrip_through_the_real_stack(desc):
     for (name, kind) in specs:
         if name in values:
             got = back[name]
-            if desc == "dtc":
+            if desc in ("dtc", "dtc-linked"):
                 got = got.trouble_code  # DTCs decode to the DTC object carrying the trouble code
             H.check("C01,C02,C04:decoded-value-is-the-encoded-value", _same(got, values[name]), independent=True)
     for p in codec.parameters:
@@ -891,7 +912,7 @@ def _two_length_service():
          family=lambda t, s: [{"desc": k, "phase": ph} for k in DESCRIPTIONS for ph in ("encode", "decode")
                               if not (ph == "decode" and k in DECODE_SKIP)] +
          [{"desc": "nrc-const-service", "phase": "decode"}, {"desc": "two-length-service", "phase": "decode"}],
-         bound="the 55 concrete descriptions plus one service with two NRC-CONST negative responses; values and "
+         bound="the 56 concrete descriptions plus one service with two NRC-CONST negative responses; values and "
          "messages symbolic",
          functions=FUNCTIONS + [DiagService.decode_message], covers=["strict-success"],
          assumes=["A-bitstruct", "A-lib"], limits={"max_paths": 40000, "task_timeout": 1500, "sym_for_unroll": 12}, use_contracts=["bcd"],
